@@ -207,6 +207,22 @@ fn plan_c02(thorough: bool) -> Plan {
             }
         }
     }
+    // the 2-commit histories of the 19/20/21-key clusters and of three key pairs (fresh depth-1 pages) once
+    // more with both batches prepared as a CHAIN of overlays (the second built while the first is
+    // uncommitted: pages born in the first and touched by the second) and committed in order; roots
+    // of both overlays, after each commit and after the final reopen
+    {
+        let mut base: Vec<Value> = vec![];
+        for (p, n) in [(12usize, 19u32), (12, 20), (18, 20), (18, 21)] {
+            let seed = format!("cl{p}x{n}");
+            let uni = format!("CL{p}:{}-{}", n.saturating_sub(2), n + 2);
+            let uni0 = format!("CL{p}:0-1");
+            base.extend(enum_commit_histories(2, 5, 2, &a, &mk_case(&seed, vec![&uni, &uni0], &cfg, "root", true)));
+        }
+        let a2 = acts(&[("w", Some(1)), ("d", None)]);
+        base.extend(enum_commit_histories(2, 6, 3, &a2, &mk_case("empty", vec!["PAIRS:3"], &cfg, "root", true)));
+        cases.extend(via_overlays(&base, true));
+    }
     // worker counts over keys spread over several root-child ranges
     for cc in if thorough { vec![2usize, 3, 4, 64] } else { vec![3usize] } {
         let mut c = cfg_small();
@@ -235,12 +251,12 @@ fn plan_c02(thorough: bool) -> Plan {
             cases.push(json!({"bound": 3, "seed": "round", "universe": ["ROUND"], "cfg": cfg.to_json(), "audit": "root", "ops": ops, "final_reopen": true}));
         }
     }
-    add_quiet(&mut cases, if thorough { 1 } else { 2 });
+    add_quiet(&mut cases, if thorough { 1 } else { 3 });
     cases.extend(crate::schedx::worker_schedule_cases(thorough));
     sort_by_bound(&mut cases);
     let mut p = Plan::new(
         cases,
-        "histx: every history of D commits with at most B key actions {insert, delete, overwrite} over (i) a 14-key family diverging at bits {0,1,5,6,7,11,12,13,17,18,127,254,255} and (ii) clusters of 18..22 keys below one depth-2 and one depth-3 merkle page (page-elision threshold from both sides), for 1..64 commit workers, and (iii) the tombstone family (16/32-bucket tables × 16 bitbox seeds, 10 pages, every page / adjacent pair of pages removed, cold reopen, re-insert, reopen), (iiib) roots of sessions on overlay chains in which an ancestor inserts 'round' keys (prefix·1·0…0) and a descendant writes into the sub-trie on their left whose only leaf is on disk, (iiic) 'quiet' copies (no reads between the operations) of every second history that starts from a seed state, and (iv) every schedule with ≤2 (thorough: all) preemptions of the three merkle update workers of one commit (worker start, publishing of child-page roots, hand-back of the write pass, root-page phase) under the controlled scheduler; FinishedSession::root, Nomt::root after each commit and after a final reopen are compared with an independent from-scratch recursive trie over the model's key-value set. Non-trivial = at least one write committed. Also ALL schedules (a few hundred per batch) of the three beatree leaf-stage workers of one commit whose ranges are three consecutive leaves that all fall below the merge threshold (three batches: two of three values deleted / values shrunk and last leaf deleted / middle leaf deleted), i.e. of the extend-range protocol between neighbouring workers (poll left neighbour, send request, wait for response, wait for left neighbour to conclude, join in completion order): after every schedule the values, root and proofs equal the model and the directory decodes (independent decoder) to exactly the model with every page accounted for. And the branch stage: seed with two bottom branch nodes, one commit deleting 420–440 consecutive keys (≈ 140 leaves) so that the first node falls below the merge threshold and its worker requests nodes from its right neighbour, with three leaf-stage workers running under the scheduler as well (2 batches; every schedule with 0 preemptions quick, ≤1 and a capped ≤2 thorough).",
+        "histx: every history of D commits with at most B key actions {insert, delete, overwrite} over (i) a 14-key family diverging at bits {0,1,5,6,7,11,12,13,17,18,127,254,255} and (ii) clusters of 18..22 keys below one depth-2 and one depth-3 merkle page (page-elision threshold from both sides), for 1..64 commit workers, and (iii) the tombstone family (16/32-bucket tables × 16 bitbox seeds, 10 pages, every page / adjacent pair of pages removed, cold reopen, re-insert, reopen), (iiib) roots of sessions on overlay chains in which an ancestor inserts 'round' keys (prefix·1·0…0) and a descendant writes into the sub-trie on their left whose only leaf is on disk, (iiic) the 2-commit cluster and key-pair (fresh depth-1 pages) histories prepared as a chain of two overlays (the second built on the uncommitted first) and committed in order, (iiid) 'quiet' copies (no reads between the operations) of every second history that starts from a seed state, and (iv) every schedule with ≤2 (thorough: all) preemptions of the three merkle update workers of one commit (worker start, publishing of child-page roots, hand-back of the write pass, root-page phase) under the controlled scheduler; FinishedSession::root, Nomt::root after each commit and after a final reopen are compared with an independent from-scratch recursive trie over the model's key-value set. Non-trivial = at least one write committed. Also ALL schedules (a few hundred per batch) of the three beatree leaf-stage workers of one commit whose ranges are three consecutive leaves that all fall below the merge threshold (three batches: two of three values deleted / values shrunk and last leaf deleted / middle leaf deleted), i.e. of the extend-range protocol between neighbouring workers (poll left neighbour, send request, wait for response, wait for left neighbour to conclude, join in completion order): after every schedule the values, root and proofs equal the model and the directory decodes (independent decoder) to exactly the model with every page accounted for. And the branch stage: seed with two bottom branch nodes, one commit deleting 420–440 consecutive keys (≈ 140 leaves) so that the first node falls below the merge threshold and its worker requests nodes from its right neighbour, with three leaf-stage workers running under the scheduler as well (2 batches; every schedule with 0 preemptions quick, ≤1 and a capped ≤2 thorough).",
     );
     p.budget_s = if thorough { 1500 } else { 55 };
     p.assumptions = vec!["collision resistance of the hasher (equal roots ⇔ equal tries)".into()];
